@@ -339,7 +339,7 @@ for i in range(start, len(cases)):
     t0 = time.time()
     try:
         s = z3.Solver(ctx=z3.Context())
-        s.set("timeout", %d)
+        s.set("timeout", int(sys.argv[3]))
         s.from_string(cases[i])
         r = str(s.check())
         m = ""
@@ -351,10 +351,10 @@ for i in range(start, len(cases)):
     except Exception as ex:
         r, m = "error", str(ex)[:500]
     print(json.dumps({"i": i, "r": r, "m": m, "s": round(time.time() - t0, 3)}), flush=True)
-''' % Z3_TIMEOUT_MS
+'''
 
 
-def z3_refute(scripts, hard_cap=45):
+def z3_refute(scripts, hard_cap=45, timeout_ms=Z3_TIMEOUT_MS):
     """Run the scripts through z3 in a child process; a case on which z3 does not come back
     within hard_cap seconds is reported as unknown and the child is restarted after it."""
     results = [None] * len(scripts)
@@ -368,7 +368,7 @@ def z3_refute(scripts, hard_cap=45):
         import selectors
         start = 0
         while start < len(scripts):
-            p = subprocess.Popen([Z3_PYTHON, pf, cf, str(start)], stdout=subprocess.PIPE,
+            p = subprocess.Popen([Z3_PYTHON, pf, cf, str(start), str(timeout_ms)], stdout=subprocess.PIPE,
                                  stderr=subprocess.DEVNULL)
             fd = p.stdout.fileno()
             sel = selectors.DefaultSelector()
